@@ -29,6 +29,26 @@ lib.repo_env.assert_repo(U)
 
 Q = qubit_ty()
 I = NumericType(NumericType.Kind.Int)
+
+
+def _struct_types():
+    """instantiated struct types of harness/data/c24_structs.py (real @guppy.struct definitions, checked by the real engine)"""
+    import importlib.util
+    import sys
+    from guppylang_internals.engine import ENGINE
+    from guppylang_internals.tys.arg import TypeArg
+    path = os.path.join(os.path.dirname(os.path.abspath(__file__)), "data", "c24_structs.py")
+    spec = importlib.util.spec_from_file_location("c24_structs", path)
+    m = importlib.util.module_from_spec(spec)
+    sys.modules["c24_structs"] = m
+    spec.loader.exec_module(m)
+    inst = lambda d, args=(): ENGINE.get_checked(d.id).check_instantiate([TypeArg(a) for a in args])   # noqa: E731
+    return {"SQ": inst(m.SQ), "SC": inst(m.SC), "SA": inst(m.SA), "SN": inst(m.SN), "BoxQ": inst(m.Box, [Q]), "BoxI": inst(m.Box, [I]),
+            "BoxSN": inst(m.Box, [inst(m.SN)])}
+
+
+with NoTracing():
+    ST = _struct_types()
 FLAGS = [UnitaryFlags(i) for i in range(8)]
 POS = int(os.environ.get("VERIF_C24_POS", "0"))   # where the call sits (fixed per process)
 KIND = int(os.environ.get("VERIF_C24_KIND", "0"))  # callee kind (fixed per process)
@@ -125,7 +145,7 @@ def _block(call, pos, ret_ty):
 
 def h_call(ctx: int, callee: int, inner: int, shape: int) -> bool:
     """
-    pre: 0 <= ctx < 8 and 0 <= callee < 8 and 0 <= inner < 8 and 0 <= shape < 10
+    pre: 0 <= ctx < 8 and 0 <= callee < 8 and 0 <= inner < 8 and 0 <= shape < 17
     pre: SHAPE < 0 or shape == SHAPE
     pre: shape in (2, 3, 4) or inner == 0
     post: _
@@ -152,8 +172,22 @@ def h_call(ctx: int, callee: int, inner: int, shape: int) -> bool:
         args = [place("t", TupleType([I, TupleType([Q, I])]))]             # inside a nested tuple
     elif shape == 8:
         args = [place("os", array_type(option_type(Q), 2))]               # array of optional qubits
-    else:
+    elif shape == 9:
         args = [place("x", I), place("t3", TupleType([TupleType([TupleType([Q])])]))]   # classical first, qubit three levels deep
+    elif shape == 10:
+        args = [place("s", ST["SQ"])]                       # a qubit held in a struct field
+    elif shape == 11:
+        args = [place("s", ST["SC"])]                       # a struct of classical fields only
+    elif shape == 12:
+        args = [place("x", I), place("s", ST["SA"])]        # struct with an array-of-qubits field
+    elif shape == 13:
+        args = [place("s", ST["SN"])]                       # struct nested in a struct
+    elif shape == 14:
+        args = [place("b", ST["BoxQ"])]                     # generic struct instantiated with qubit
+    elif shape == 15:
+        args = [place("b", ST["BoxI"])]                     # ... with int
+    else:
+        args = [place("a", array_type(ST["BoxSN"], 2))]     # array of generic structs of nested structs holding a qubit
     call = mkcall(KIND, kf, args, I)
     bb, is_assign = _block(call, POS, I)
     try:
@@ -161,7 +195,7 @@ def h_call(ctx: int, callee: int, inner: int, shape: int) -> bool:
         rejected = False
     except GuppyError:
         rejected = True
-    has_q_outer = shape in (0, 2, 3, 5, 6, 7, 8, 9)
+    has_q_outer = shape in (0, 2, 3, 5, 6, 7, 8, 9, 10, 12, 13, 14, 16)
     must_reject = (has_q_outer and bad(cf, kf)) or (shape in (2, 3, 4) and bad(cf, inf))
     if is_assign and UnitaryFlags.Dagger in cf:
         must_reject = True
